@@ -6,7 +6,7 @@
      sumf f a n   : f a + f (a+1) + ... + f (a+n-1) *)
 From Coq Require Import QArith Qcanon List Arith.
 From Verif.lib Require Import Bsp.
-From Verif.C02 Require Import Proofs Proofs_ref Proofs_ndu Proofs_single Proofs_deriv.
+From Verif.C02 Require Import Proofs Proofs_ref Proofs_ndu Proofs_single Proofs_deriv Proofs_tp.
 Import ListNotations.
 Open Scope Qc_scope.
 
@@ -174,3 +174,70 @@ Theorem routes_agree : forall kv p u j,
   single_ev kv p j u = nth j (colloc_row kv p 0 u) 0.
 Proof. exact routes_agree_l. Qed.
 Print Assumptions routes_agree.
+
+(* ---- routes built on the collocation rows ---------------------------------------------------
+   spline_ev kv p k c u = (row of the k-th derivative collocation matrix at u) . c  is what
+   bspline.ev (k = 0) and bspline.deriv (k >= 1) compute for degree > 5 and what scipy's splev is
+   compared with for degree <= 5 (the harness compares the returned floats with this sum, formed in
+   exact rationals from the active values that the exact tie has compared with the model). *)
+Theorem spline_ev_spec : forall kv p k c u,
+  kv_ok kv p -> kn kv 0 <= u -> u <= kn kv (length kv - 1) -> length c = numdofs kv p ->
+  spline_ev kv p k c u = sumf (fun j => nth j c 0 * dNref kv k p j u) 0 (numdofs kv p).
+Proof. exact spline_ev_spec_l. Qed.
+Print Assumptions spline_ev_spec.
+
+(* only the p+1 coefficients starting at the reported first-active index enter *)
+Theorem spline_ev_local : forall kv p k c u,
+  kv_ok kv p -> kn kv 0 <= u -> u <= kn kv (length kv - 1) -> length c = numdofs kv p ->
+  spline_ev kv p k c u = sumf (fun j => nth j c 0 * dNref kv k p j u) (first_active_at kv p u) (S p).
+Proof. exact spline_ev_local_l. Qed.
+Print Assumptions spline_ev_local.
+
+(* constants are reproduced, their derivatives of every order >= 1 vanish *)
+Theorem spline_ev_const : forall kv p x u,
+  kv_ok kv p -> kn kv 0 <= u -> u <= kn kv (length kv - 1) ->
+  spline_ev kv p 0 (repeat x (numdofs kv p)) u = x.
+Proof. exact spline_ev_const_l. Qed.
+Print Assumptions spline_ev_const.
+
+Theorem spline_deriv_const : forall kv p k x u,
+  kv_ok kv p -> kn kv 0 <= u -> u <= kn kv (length kv - 1) -> (1 <= k)%nat ->
+  spline_ev kv p k (repeat x (numdofs kv p)) u = 0.
+Proof. exact spline_deriv_const_l. Qed.
+Print Assumptions spline_deriv_const.
+
+(* Tensor-product evaluators (BSplineFunc.grid_eval / grid_jacobian / grid_hessian at one grid point):
+   applying one (derivative) collocation row per axis, axis by axis (tp_eval: the apply_tprod
+   contraction), gives the defining nested sum  sum_{j1}..sum_{jd} c[j1..jd] prod_a N^(k_a)_{j_a}(u_a)
+   (tp_ref), for ANY number of axes, degrees, knot vectors, derivative multi-orders and points. *)
+Theorem tp_eval_spec : forall axes ks c pt, axes_ok axes pt -> tp_eval axes ks c pt = tp_ref axes ks c pt.
+Proof. exact tp_eval_spec_l. Qed.
+Print Assumptions tp_eval_spec.
+
+(* the two-axis case written out: entry of  C2 * c * C1^T  (what the harness compares grid_eval and
+   grid_jacobian with) *)
+Theorem tp_eval_2d : forall kv2 p2 k2 kv1 p1 k1 (c : nat -> nat -> Qc) v u,
+  kv_ok kv2 p2 -> kn kv2 0 <= v -> v <= kn kv2 (length kv2 - 1) ->
+  kv_ok kv1 p1 -> kn kv1 0 <= u -> u <= kn kv1 (length kv1 - 1) ->
+  tp_eval [(kv2, p2); (kv1, p1)] [k2; k1]
+          (fun idx => match idx with [a; b] => c a b | _ => 0 end) [v; u] =
+  sumf (fun a => sumf (fun b => c a b * (dNref kv2 k2 p2 a v * dNref kv1 k1 p1 b u)) 0 (numdofs kv1 p1))
+       0 (numdofs kv2 p2).
+Proof. exact tp_eval_2d_l. Qed.
+Print Assumptions tp_eval_2d.
+
+(* the tensor-product basis is a partition of unity (constant coefficients give the constant) and
+   every derivative of a constant vanishes; non-negative coefficients give a non-negative value *)
+Theorem tp_eval_const : forall axes ks x pt, axes_ok axes pt -> length ks = length axes ->
+  tp_eval axes ks (fun _ => x) pt = if all_zero ks then x else 0.
+Proof. exact tp_eval_const_l. Qed.
+Print Assumptions tp_eval_const.
+
+Theorem tp_nonneg : forall axes c pt, axes_ok axes pt -> (forall idx, 0 <= c idx) ->
+  0 <= tp_ref axes (repeat 0%nat (length axes)) c pt.
+Proof. exact tp_ref_nonneg_l. Qed.
+Print Assumptions tp_nonneg.
+
+(* NOT PROVED (tie/oracle only): that FITPACK's splev/splder (the degree <= 5 route of ev/deriv)
+   computes spline_ev -- it is compared with the sum above per point; the float error bounds of every
+   route; BSplineFunc's caching of collocation matrices per grid (history tie on one object). *)
